@@ -5,6 +5,8 @@ pub mod canon;
 pub mod mem;
 pub mod rfc6962;
 pub mod smt;
+pub mod tables;
+pub mod validity;
 
 use sha2::{
     Digest,
